@@ -665,6 +665,29 @@ def rule_T3c(facts, rows=None):
     return res
 
 
+def rule_T3h(facts, rows=("pausing", "canceling")):
+    res = RuleResult("T3h", "once pause or cancel is in progress no task event moves the "
+                            "workflow back to a status in which tasks are offered")
+    summ = name_summaries(facts)
+    accepted = set(facts.TASK_EVENTS)
+    for r in rows:
+        if r not in facts.wf:
+            raise AnalysisError("workflow table has no row %s" % r)
+        for name in sorted(summ):
+            if name not in accepted:
+                continue
+            e = eff(facts.wf, r, name)
+            inst = (r, name)
+            if e in facts.RUNNING_STATUSES:
+                res.violated(inst, _f(
+                    "T3h", "WORKFLOW_STATE_MACHINE_DATA", r, name,
+                    "while %s, this task event puts the workflow back to %s: held-back work is "
+                    "offered although the pause/cancel is still pending" % (r, e), facts))
+            else:
+                res.holds(inst)
+    return res
+
+
 def cmd_rows(facts):
     """Rows in which the event of an engine command (processed right after its parent's task
     event) can be looked up."""
@@ -978,7 +1001,8 @@ def _tf(rule, row, event, msg, facts):
 
 
 def rule_T4a(facts):
-    res = RuleResult("T4a", "a with-items task never completes while another item is in flight")
+    res = RuleResult("T4a", "a with-items task never completes or rests (paused/pending) while "
+                            "another item is in flight")
     summ = item_summaries(facts)
     for r in facts.task:
         if r in facts.COMPLETED:
@@ -987,10 +1011,11 @@ def rule_T4a(facts):
             if sm["plain"] or not sm["some_item_inflight"]:
                 continue
             e = eff(facts.task, r, name)
-            if e in facts.COMPLETED:
+            if e in facts.COMPLETED or (e in PAUSEDISH and r not in PAUSEDISH):
                 res.violated((r, name), _tf(
                     "T4a", r, name, "item event generated while another item is in flight "
-                    "completes the task as %s" % e, facts))
+                    "%s the task as %s" % ("completes" if e in facts.COMPLETED else "rests", e),
+                    facts))
             else:
                 res.holds((r, name))
     return res
